@@ -67,17 +67,38 @@ func Run(c *vh.Ctx) {
 			var t TyCase
 			json.Unmarshal(c.ReplayRaw, &t)
 			runTypes(c, m, t.Tag, &t)
+		case "hist":
+			var h HistCase
+			json.Unmarshal(c.ReplayRaw, &h)
+			switch h.Fam {
+			case "acc":
+				if h.Shape != nil {
+					histAccess(c, m, *h.Shape, h.Group)
+				}
+			case "ty":
+				histTypes(c, m, h.Tag, h.Group)
+			case "inst":
+				histInst(c, m, h.Tag, h.Stride, h.Off, h.Group)
+			}
 		}
 		if m != nil {
 			c.Res.ModelLines = m.Lines
 		}
 		return
 	}
-	for _, sh := range shapes(c) {
+	shs := shapes(c)
+	for _, sh := range shs {
 		runAccess(c, m, sh, "", false)
 	}
 	runTypes(c, m, "Q"+string(rune('a'+c.Rand.Intn(26))), nil)
 	runInst(c, m, "N"+string(rune('a'+c.Rand.Intn(26))), nil)
+	// enforcement is history-independent: every enforcement point probed repeatedly within one VM
+	for _, sh := range shs {
+		histAccess(c, m, sh, "")
+	}
+	histTypes(c, m, "H"+string(rune('a'+c.Rand.Intn(26))), "")
+	stride := c.N(8, 1)
+	histInst(c, m, "V"+string(rune('a'+c.Rand.Intn(26))), stride, c.Rand.Intn(stride), "")
 	c.Res.Exhaustive = true
 	c.Res.ExhaustiveWhat = "per hierarchy shape: every (access path variant x modifier x receiver x object class x site) cell of the visibility matrix; every (boundary x declared type x value kind) cell of the type matrix (10 x 15 x 11); every (base x interface x middle-class subset x own subset) instantiation cell (4 x 3 x 5 x 16) plus the abstract/interface/static special cases; hierarchy shapes and names are seeded"
 	if m != nil {
